@@ -22,6 +22,7 @@ func init() {
 		c19Protocol(c)
 		c19Cancelled(c, "C19.5")
 		upgradeAttemptConcludedOnce(c, "C19.6")
+		c19RefreshOnlyLive(c, "C19.7")
 		c19LoopStop(c)
 		c19Pairing(c)
 		c19WhoClears(c)
@@ -641,7 +642,7 @@ func timerNilSafe(c *core.Ctx, R string) {
 				keyf("a dereferencing Timer method on a holder load must be dominated by a non-nil test of that value: %v (onOpen arms revision-%s timers after the session is already open to packets)", licensed, armed[holder]))
 		}
 	}
-	c.Need(R, "Timer method calls on holder loads", n, 2)
+	c.Need(R, "Timer method calls on holder loads", n, 1)
 }
 
 // c19WhoClears — C19.3b: a timer is cancelled only by the sites that own its life cycle.
@@ -887,4 +888,48 @@ func c19Cancelled(c *core.Ctx, R string) {
 		c.Check(R, "utils.(*Timer).Refresh/under-Timer.mu", rf.Pos(), ok && n >= 3, keyf("%d timer operations, all with Timer.mu held: %v", n, ok))
 		c.Check(R, "utils.(*Timer).Refresh/cancelled-stays-cancelled", rf.Pos(), !revived, "the restart of the waiter and the Reset are on the not-cancelled edge: refreshing a cancelled timer does nothing")
 	}
+}
+
+// c19RefreshOnlyLive — C19.7 = C07.12 (fix 2916323): a cancelled timer stays
+// cancelled (C19.5), so Refresh is meaningful only on a holder that nothing
+// cancels before its owner's teardown.
+func c19RefreshOnlyLive(c *core.Ctx, R string) {
+	c.Rule(R, "Refresh is applied only to a timer that cannot have been cancelled: for every holder.Load().Refresh() in package engine, every cancellation of that holder (ClearTimeout / ClearInterval / Stop) lies in the owner's teardown socket.OnClose — pingTimeoutTimer is also cancelled by clearTransport (upgrade) and by the PONG branch, so its deadline is re-created (resetPingTimeout), never refreshed")
+	cancels := map[string][]string{}
+	for _, u := range c.P.Units {
+		if u.Pkg != c.P.Pkgs["engine"] {
+			continue
+		}
+		for _, cl := range u.CallsTo(clearTOKey, clearIVKey, timerStopKey) {
+			arg := cl.Arg(0)
+			if cl.Key == timerStopKey {
+				arg = cl.Recv
+			}
+			if arg == nil {
+				continue
+			}
+			if h := timerHolder(u.Info(), arg); h != "" {
+				cancels[h] = append(cancels[h], u.Root().Key)
+			}
+		}
+	}
+	n := 0
+	for _, u := range c.P.Units {
+		if u.Pkg != c.P.Pkgs["engine"] {
+			continue
+		}
+		for _, cl := range u.CallsTo("utils.(*Timer).Refresh") {
+			h := timerHolder(u.Info(), u.Resolve(cl.Recv))
+			n++
+			c.Touch(u)
+			bad := []string{}
+			for _, where := range cancels[h] {
+				if where != sockOnClose {
+					bad = append(bad, where)
+				}
+			}
+			c.Check(R, keyf("%s/Refresh(%s)-never-cancelled-before-teardown", u.Key, h), cl.Pos(), h != "" && len(bad) == 0, keyf("cancelled outside the teardown by %v", bad))
+		}
+	}
+	c.Need(R, "Refresh calls in package engine", n, 1)
 }
